@@ -126,6 +126,28 @@ FIRST = {
     "C19-10": ("caught", ""),
     "C20-9": ("missed", "chains had the mode on a pure suffix. Added mixed chains (a member without the mode after one with it)."),
     "C20-10": ("missed", "references never named a stack variable nor a variable two members set. Added both (the latter against the manager's merged view)."),
+    # ---- round 6 ----
+    "C04-11": ("missed", "no member carried explain-mode. Added (the explanation dump must not execute anything)."),
+    "C04-12": ("missed", "no I/O fault at the policy's print step. Added stratum P: an error handled while every write to stdout raises ENOSPC."),
+    "C05-11": ("missed", "the match-mode clause was not asserted under a policy with stop. Now asserted unless 'stop' is written in the validation-mode comment itself."),
+    "C05-12": ("missed", "one erroring component per line. Added a second one on the offending lines; one record and one message per raised error."),
+    "C07-11": ("missed", "entry points were always called with the csvpath text. Added parse() + advance(k) before the entry point."),
+    "C07-12": ("caught", ""),
+    "C08-11": ("caught", ""),
+    "C08-12": ("missed", "the line-count/header cache was always whole. Added: half of the cache entries lost between two runs."),
+    "C09-11": ("missed", "no member used transfer-mode. Added (a transfer that cannot be made raises today: such runs are not asserted)."),
+    "C09-12": ("caught (frozen clock is the default)", ""),
+    "C10-11": ("caught", ""),
+    "C10-12": ("missed", "the interleaved run always started in A's second and ':last' was not asked afterwards. Added a delay before B and ':last'/':first' after both."),
+    "C11-11": ("missed", "only add_named_file was driven. Added set_named_files() with a missing source among the entries."),
+    "C11-12": ("missed", "a torn copy was retried with the source unchanged, and the seam sat on shutil only. Added: source rewritten (same length) before the retry; torn writes also at open() level."),
+    "C12-11": ("missed", "the identifying comment was always the leading one and inner comments never looked like metadata. Added second/trailing placement and inner 'id: x' comments."),
+    "C12-12": ("missed", "the logging level was fixed. Worlds now vary it (error/info/debug)."),
+    "C18-11": ("caught", ""),
+    "C18-12": ("missed", "members ordered after the aborting one in a breadth-first run were not asserted. Added clause later_member_completed."),
+    "C19-11": ("missed", "warm caches were always whole and files never began with a blank line. Added torn cache entries and such files."),
+    "C20-11": ("missed", "no member of the referenced group read its own group's variables mid-run. Added."),
+    "C20-12": ("missed", "chains were never interrupted. Added: another run on the same instance while the chain generator is part-way."),
 }
 
 
